@@ -22,6 +22,46 @@ type pstate struct {
 	flags  uint8
 	ret    int8      // result of the last inlined callee: 0 unknown, 1 true, 2 false
 	retVar token.Pos // variable the result was assigned to (0: it is the value of the call itself)
+	// boolean locals that were last assigned a constant on this path (deleted := false … deleted =
+	// true): a branch on one of them is taken the one way the path allows
+	bools [2]boolTrack
+}
+
+type boolTrack struct {
+	v   token.Pos // position of the variable's declaration (0: unused slot)
+	val int8      // 1 true, 2 false
+}
+
+func (s *pstate) setBool(v token.Pos, val int8) {
+	for i := range s.bools {
+		if s.bools[i].v == v {
+			s.bools[i].val = val
+			return
+		}
+	}
+	for i := range s.bools {
+		if s.bools[i].v == 0 {
+			s.bools[i] = boolTrack{v, val}
+			return
+		}
+	}
+}
+
+func (s *pstate) boolOf(v token.Pos) int8 {
+	for _, b := range s.bools {
+		if b.v == v && v != 0 {
+			return b.val
+		}
+	}
+	return 0
+}
+
+func (s *pstate) forgetBool(v token.Pos) {
+	for i := range s.bools {
+		if s.bools[i].v == v {
+			s.bools[i] = boolTrack{}
+		}
+	}
 }
 
 // summary is one way an inlined callee can end: its events and its constant boolean result.
@@ -34,6 +74,74 @@ type summary struct {
 type pathOpts struct {
 	info   *types.Info
 	inline func(n ast.Node) ([]summary, *ast.CallExpr) // summaries of a library callee called in node n
+	// boolReturn: the events of `return x` when x is a tracked boolean local with the given value
+	boolReturn func(val bool) []int
+}
+
+// trackBools updates the tracked boolean locals for one CFG node.
+func trackBools(info *types.Info, s *pstate, n ast.Node) {
+	isBoolVar := func(e ast.Expr) types.Object {
+		id, ok := ast.Unparen(e).(*ast.Ident)
+		if !ok {
+			return nil
+		}
+		v, _ := info.ObjectOf(id).(*types.Var)
+		if v == nil || v.IsField() || v.Parent() == nil || v.Parent() == v.Pkg().Scope() {
+			return nil
+		}
+		if b, ok := v.Type().Underlying().(*types.Basic); !ok || b.Kind() != types.Bool {
+			return nil
+		}
+		return v
+	}
+	switch x := n.(type) {
+	case *ast.AssignStmt:
+		if len(x.Lhs) != len(x.Rhs) {
+			for _, l := range x.Lhs {
+				if v := isBoolVar(l); v != nil {
+					s.forgetBool(v.Pos())
+				}
+			}
+			return
+		}
+		for i, l := range x.Lhs {
+			v := isBoolVar(l)
+			if v == nil {
+				continue
+			}
+			switch {
+			case isConstBool(info, x.Rhs[i], true):
+				s.setBool(v.Pos(), 1)
+			case isConstBool(info, x.Rhs[i], false):
+				s.setBool(v.Pos(), 2)
+			default:
+				s.forgetBool(v.Pos())
+			}
+		}
+	case *ast.ValueSpec:
+		for i, nm := range x.Names {
+			v := isBoolVar(nm)
+			if v == nil {
+				continue
+			}
+			switch {
+			case i >= len(x.Values):
+				s.setBool(v.Pos(), 2)
+			case isConstBool(info, x.Values[i], true):
+				s.setBool(v.Pos(), 1)
+			case isConstBool(info, x.Values[i], false):
+				s.setBool(v.Pos(), 2)
+			}
+		}
+	case *ast.DeclStmt:
+		if gd, ok := x.Decl.(*ast.GenDecl); ok {
+			for _, sp := range gd.Specs {
+				if vs, ok := sp.(*ast.ValueSpec); ok {
+					trackBools(info, s, vs)
+				}
+			}
+		}
+	}
 }
 
 type pathResult struct {
@@ -128,6 +236,20 @@ func runPathsOpt(g *cfg.CFG, names []string, events func(b *cfg.Block, i int, n 
 			}
 			var next []pstate
 			for _, s := range states {
+				evs := evs
+				if opts != nil && opts.info != nil {
+					trackBools(opts.info, &s, n)
+					// return x with x a tracked boolean: the constant it holds on this path
+					if rs, ok := n.(*ast.ReturnStmt); ok && len(rs.Results) == 1 && opts.boolReturn != nil {
+						if id, ok := ast.Unparen(rs.Results[0]).(*ast.Ident); ok {
+							if v := opts.info.ObjectOf(id); v != nil {
+								if val := s.boolOf(v.Pos()); val != 0 {
+									evs = opts.boolReturn(val == 1)
+								}
+							}
+						}
+					}
+				}
 				for _, ev := range evs {
 					if s.n[ev] < 2 {
 						s.n[ev]++
@@ -196,7 +318,31 @@ func runPathsOpt(g *cfg.CFG, names []string, events func(b *cfg.Block, i int, n 
 					}
 				}
 			}
+			// … or a tracked boolean local?
+			boolCond := int8(0) // the value the condition has on this path: 1 true, 2 false
+			if len(b.Succs) == 2 && len(b.Nodes) > 0 && opts != nil && opts.info != nil && condVal == 0 {
+				if cond, ok := b.Nodes[len(b.Nodes)-1].(ast.Expr); ok {
+					neg := false
+					e := ast.Unparen(cond)
+					if ue, ok := e.(*ast.UnaryExpr); ok && ue.Op == token.NOT {
+						neg, e = true, ast.Unparen(ue.X)
+					}
+					if id, ok := e.(*ast.Ident); ok {
+						if v := opts.info.ObjectOf(id); v != nil {
+							if val := s.boolOf(v.Pos()); val != 0 {
+								boolCond = val
+								if neg {
+									boolCond = 3 - val
+								}
+							}
+						}
+					}
+				}
+			}
 			for si, succ := range b.Succs {
+				if boolCond != 0 && ((boolCond == 1 && si == 1) || (boolCond == 2 && si == 0)) {
+					continue // the flag has the other value on this path
+				}
 				if condVal != 0 {
 					wantTrue := (condVal == 1) == (si == 0)
 					if (wantTrue && s.ret == 2) || (!wantTrue && s.ret == 1) {
